@@ -344,10 +344,25 @@ func docOf(d Def) string {
 	return c
 }
 
+// tagsOf: a doc line of the form [tag(key:"value")] is a field tag as well as a comment.
+func tagsOf(doc string) []bebop.Tag {
+	const pre, mid, post = "[tag(", ":\"", "\")]"
+	if len(doc) < len(pre)+len(mid)+len(post)+1 || doc[:len(pre)] != pre || doc[len(doc)-len(post):] != post {
+		return nil
+	}
+	body := doc[len(pre) : len(doc)-len(post)]
+	for i := 0; i+len(mid) <= len(body); i++ {
+		if body[i:i+len(mid)] == mid {
+			return []bebop.Tag{{Key: body[:i], Value: body[i+len(mid):]}}
+		}
+	}
+	return nil
+}
+
 func (d Def) wantStruct(s *Style, inner []byte) bebop.Struct {
 	st := bebop.Struct{Name: d.Name, Comment: docOf(d), OpCode: d.OpV, ReadOnly: d.ReadOnly}
 	for _, f := range d.Fields {
-		st.Fields = append(st.Fields, bebop.Field{Name: f.Name, FieldType: f.Ty.want(), Comment: commentOf(f.BlockLines, f.Doc, s, inner), Deprecated: f.Depr, DeprecatedMessage: f.DeprM})
+		st.Fields = append(st.Fields, bebop.Field{Name: f.Name, FieldType: f.Ty.want(), Comment: commentOf(f.BlockLines, f.Doc, s, inner), Deprecated: f.Depr, DeprecatedMessage: f.DeprM, Tags: tagsOf(f.Doc)})
 	}
 	return st
 }
@@ -355,7 +370,7 @@ func (d Def) wantStruct(s *Style, inner []byte) bebop.Struct {
 func (d Def) wantMessage(s *Style, inner []byte) bebop.Message {
 	m := bebop.Message{Name: d.Name, Comment: docOf(d), OpCode: d.OpV, Fields: map[uint8]bebop.Field{}}
 	for _, f := range d.Fields {
-		m.Fields[f.IdxV] = bebop.Field{Name: f.Name, FieldType: f.Ty.want(), Comment: commentOf(f.BlockLines, f.Doc, s, inner), Deprecated: f.Depr, DeprecatedMessage: f.DeprM}
+		m.Fields[f.IdxV] = bebop.Field{Name: f.Name, FieldType: f.Ty.want(), Comment: commentOf(f.BlockLines, f.Doc, s, inner), Deprecated: f.Depr, DeprecatedMessage: f.DeprM, Tags: tagsOf(f.Doc)}
 	}
 	return m
 }
@@ -442,6 +457,16 @@ func (a *eqAcc) field(x, y bebop.Field) {
 	a.and(x.Deprecated == y.Deprecated)
 	a.and(x.DeprecatedMessage == y.DeprecatedMessage)
 	if a.comments {
+		// tags come from comments of a special form
+		if len(x.Tags) != len(y.Tags) {
+			a.ok = false
+		} else {
+			for i := range x.Tags {
+				a.and(x.Tags[i].Key == y.Tags[i].Key)
+				a.and(x.Tags[i].Value == y.Tags[i].Value)
+				a.and(x.Tags[i].Boolean == y.Tags[i].Boolean)
+			}
+		}
 		a.and(x.Comment == y.Comment)
 	}
 }
